@@ -13,7 +13,7 @@ From Coq Require Import List NArith Bool Arith.
 From Tink Require Import Bytes SlhdsaSupport SlhdsaAddr SlhdsaBase SlhdsaWots SlhdsaXmss SlhdsaFors SlhdsaHt
   Slhdsa SlhdsaHash SlhdsaParams SlhdsaSpec
   SlhdsaSupportProofs SlhdsaWotsProofs SlhdsaXmssProofs SlhdsaForsProofs SlhdsaHtProofs SlhdsaProofs SlhdsaParamsProofs
-  SlhdsaFipsSupport SlhdsaFipsLayers SlhdsaFipsTop SlhdsaFipsHash ConstsTieC16 SlhdsaTwelve SlhdsaForgery SlhdsaApiProofs.
+  SlhdsaFipsSupport SlhdsaFipsLayers SlhdsaFipsTop SlhdsaFipsHash ConstsTieC16 SlhdsaTwelve SlhdsaForgery SlhdsaApiProofs SlhdsaTargetSubset.
 From Tink Require SlhdsaFips.
 Import ListNotations.
 Open Scope N_scope.
@@ -500,58 +500,164 @@ Print Assumptions C16_tink_verify_accepts_iff.
 (* === "any modification of a signature is rejected", as a reduction ======= *)
 (* th_collision HS pk : F, H or T_l called with the same PK.seed and the same
    ADRS on two DIFFERENT inputs of EQUAL POSITIVE length, equal outputs.
-   wots_switch P HS pk : two WOTS+ signatures (len*n bytes each) on DIFFERENT
-   messages that lead to the same WOTS+ public key at the same address.
+   sig_switch P HS pkSeed pkRoot msg sig sig' : bool -- the LOCATED WOTS+ switch,
+   COMPUTED from the two signatures (proofs/SlhdsaForgery.v): at some hypertree
+   layer j the WOTS+ parts of the j-th XMSS blocks of sig and sig' lead to the
+   SAME WOTS+ public key although the base-w digit strings (message digits ++
+   checksum digits) of the values the two verifications sign there DIFFER.
+   Extra premises w.r.t. the first version (second audit): hash outputs are byte
+   strings (hashes_wfb) and digits_wf (len1*lg_w = 8n, 1 <= lg_w <= 25,
+   len2*lg_w <= 32; the twelve sets satisfy it), so that equal digit strings of
+   n-byte values mean equal values.
    Two accepted (message, signature) pairs under one public key whose digests
    select the same FORS indices / tree / leaf have the same body SIG_FORS || SIG_HT,
-   or exhibit one of the two.  (See proofs/SlhdsaForgery.v for what is not
-   claimed: modifications that change the digest's selectors.) *)
+   or the located switch is true of them, or a same-tweak collision exists. *)
 Theorem C16_two_accepted_signatures_reduction :
-  forall P HS, hashes_ok P HS -> params_wf P -> forall pkSeed pkRoot msg sig msg' sig',
+  forall P HS, hashes_ok P HS -> params_wf P -> hashes_wfb HS -> digits_wf P ->
+  forall pkSeed pkRoot msg sig msg' sig',
     verifyInternal P HS pkSeed pkRoot msg sig = true ->
     verifyInternal P HS pkSeed pkRoot msg' sig' = true ->
     selectors P HS pkSeed pkRoot msg sig = selectors P HS pkSeed pkRoot msg' sig' ->
-    sig_body P sig = sig_body P sig' \/ wots_switch P HS pkSeed \/ th_collision HS pkSeed.
+    sig_body P sig = sig_body P sig' \/ sig_switch P HS pkSeed pkRoot msg sig sig' = true \/ th_collision HS pkSeed.
 Proof. exact two_accepted_signatures. Qed.
 Print Assumptions C16_two_accepted_signatures_reduction.
 
 (* same key, same message, same randomizer R, different signature, both accepted *)
 Theorem C16_modified_signature_reduction :
-  forall P HS, hashes_ok P HS -> params_wf P ->
+  forall P HS, hashes_ok P HS -> params_wf P -> hashes_wfb HS -> digits_wf P ->
   (forall pkSeed pkRoot msg sig sig',
      verifyInternal P HS pkSeed pkRoot msg sig = true -> verifyInternal P HS pkSeed pkRoot msg sig' = true ->
      firstn (p_n P) sig = firstn (p_n P) sig' -> sig <> sig' ->
-     wots_switch P HS pkSeed \/ th_collision HS pkSeed) /\
+     sig_switch P HS pkSeed pkRoot msg sig sig' = true \/ th_collision HS pkSeed) /\
   (forall pk msg ctx sig sig',
      verify P HS pk msg sig ctx = Some true -> verify P HS pk msg sig' ctx = Some true ->
      firstn (p_n P) sig = firstn (p_n P) sig' -> sig <> sig' ->
-     wots_switch P HS (firstn (p_n P) pk) \/ th_collision HS (firstn (p_n P) pk)) /\
+     sig_switch P HS (firstn (p_n P) pk) (skipn (p_n P) pk) (wrap_msg msg ctx) sig sig' = true
+     \/ th_collision HS (firstn (p_n P) pk)) /\
   (forall tv id pk msg sig sig',
      tink_verify P HS tv id pk msg sig = Some true -> tink_verify P HS tv id pk msg sig' = Some true ->
      firstn (length (tink_prefix tv id) + p_n P) sig = firstn (length (tink_prefix tv id) + p_n P) sig' -> sig <> sig' ->
-     wots_switch P HS (firstn (p_n P) pk) \/ th_collision HS (firstn (p_n P) pk)).
+     sig_switch P HS (firstn (p_n P) pk) (skipn (p_n P) pk) (wrap_msg msg [])
+       (skipn (length (tink_prefix tv id)) sig) (skipn (length (tink_prefix tv id)) sig') = true
+     \/ th_collision HS (firstn (p_n P) pk)).
 Proof.
-  intros P HS OK PW. split; [exact (modified_signature_accepted P HS OK PW)|].
-  split; [exact (verify_modified_signature P HS OK PW)|exact (tink_verify_modified_signature P HS OK PW)].
+  intros P HS OK PW WB DW. split; [exact (modified_signature_accepted P HS OK PW WB DW)|].
+  split; [exact (verify_modified_signature P HS OK PW WB DW)|exact (tink_verify_modified_signature P HS OK PW WB DW)].
 Qed.
 Print Assumptions C16_modified_signature_reduction.
 
-(* what a WOTS+ switch is: the two WOTS+ signatures (on messages M, M' with
-   digit strings m, m') that lead to the same WOTS+ public key are related chain
-   by chain: the value for the larger digit is the forward chain image of the
-   value for the smaller one (or there is a collision).  The checksum makes some
-   digit go down when another goes up, so whoever produced the second signature
-   from the first needed a chain preimage somewhere. *)
-Theorem C16_wots_switch_is_chain_walking :
-  forall P HS, hashes_ok P HS -> forall pk l t kp M M' s s',
-    length s = (p_len P * p_n P)%nat -> length s' = (p_len P * p_n P)%nat ->
-    wotsPkFromSigS P HS l t kp (wotsChecksum P M) s pk = wotsPkFromSigS P HS l t kp (wotsChecksum P M') s' pk ->
-    th_collision HS pk \/ forall i, (i < p_len P)%nat ->
-      let m := nth i (wotsChecksum P M) 0 in let m' := nth i (wotsChecksum P M') 0 in
-      (m <= m' -> chunk P i s' = chainS HS l t kp (N.of_nat i) pk (chunk P i s) m (N.to_nat (m' - m))) /\
-      (m' <= m -> chunk P i s = chainS HS l t kp (N.of_nat i) pk (chunk P i s') m' (N.to_nat (m - m'))).
-Proof. intros P HS OK pk l t kp M M' s s'. exact (wots_switch_walk P HS OK pk l t kp M M' s s'). Qed.
-Print Assumptions C16_wots_switch_is_chain_walking.
+(* the same for the twelve sets as instantiated by hash.go, from laws of the
+   stdlib primitives only (digest lengths; outputs are byte strings) *)
+Theorem C16_twelve_sets_modified_signature_reduction :
+  forall (sha256 sha512 : bytes -> bytes) (shake256 : bytes -> nat -> bytes) (hmac256 hmac512 : bytes -> bytes -> bytes),
+    (forall m, length (sha256 m) = 32%nat) -> (forall m, length (sha512 m) = 64%nat) ->
+    (forall m l, length (shake256 m l) = l) ->
+    (forall k m, length (hmac256 k m) = 32%nat) -> (forall k m, length (hmac512 k m) = 64%nat) ->
+    (forall m, wfb (sha256 m)) -> (forall m, wfb (sha512 m)) -> (forall m l, wfb (shake256 m l)) ->
+  forall s, In s all_sets ->
+    let P := fst s in
+    let HS := mk_hashes sha256 sha512 shake256 hmac256 hmac512 (snd s) P in
+  forall pkSeed pkRoot msg sig sig',
+    verifyInternal P HS pkSeed pkRoot msg sig = true -> verifyInternal P HS pkSeed pkRoot msg sig' = true ->
+    firstn (p_n P) sig = firstn (p_n P) sig' -> sig <> sig' ->
+    sig_switch P HS pkSeed pkRoot msg sig sig' = true \/ th_collision HS pkSeed.
+Proof. exact twelve_sets_modified_signature. Qed.
+Print Assumptions C16_twelve_sets_modified_signature_reduction.
+
+(* what a located switch is: at the layer j where it occurs, with M, M' the two
+   values signed there (digit strings m, m'), the WOTS+ parts of the two j-th XMSS
+   blocks are related by chain walking IN BOTH DIRECTIONS: at some chain i the
+   value of sig' is the image of the value of sig under m'_i - m_i >= 1 applications
+   of F, and at some chain i' the value of sig is the image of the value of sig'
+   under m_i' - m'_i' >= 1 applications (or there is a collision).  Neither
+   signature's WOTS+ part can be obtained from the other by applying F forward. *)
+Theorem C16_located_switch_is_chain_walking_both_ways :
+  forall P HS, hashes_ok P HS -> params_wf P -> digits_wf P ->
+  forall pkSeed pkRoot msg sig sig',
+    length sig = sig_len P -> length sig' = sig_len P ->
+    sig_switch P HS pkSeed pkRoot msg sig sig' = true ->
+    th_collision HS pkSeed \/ exists j l t kp M M', (j < p_d P)%nat /\
+      let X := gchunk (xmssSigSize P) j (sig_ht P sig) in let X' := gchunk (xmssSigSize P) j (sig_ht P sig') in
+      (exists i, (i < p_len P)%nat /\
+         let m := nth i (wotsChecksum P M) 0 in let m' := nth i (wotsChecksum P M') 0 in
+         m < m' /\ chunk P i X' = chainS HS l t kp (N.of_nat i) pkSeed (chunk P i X) m (N.to_nat (m' - m))) /\
+      (exists i, (i < p_len P)%nat /\
+         let m := nth i (wotsChecksum P M) 0 in let m' := nth i (wotsChecksum P M') 0 in
+         m' < m /\ chunk P i X = chainS HS l t kp (N.of_nat i) pkSeed (chunk P i X') m' (N.to_nat (m - m'))).
+Proof. intros P HS OK PW DW. exact (sig_switch_walk P HS OK PW DW). Qed.
+Print Assumptions C16_located_switch_is_chain_walking_both_ways.
+
+(* the WOTS+ checksum (Algorithm 7 lines 3-7): two different digit strings are
+   incomparable -- some digit goes up and some digit goes down *)
+Theorem C16_wots_digit_strings_are_an_antichain :
+  forall P, digits_wf P -> forall M M', wotsChecksum P M <> wotsChecksum P M' ->
+    (exists i, (i < p_len P)%nat /\ nth i (wotsChecksum P M) 0 < nth i (wotsChecksum P M') 0) /\
+    (exists i, (i < p_len P)%nat /\ nth i (wotsChecksum P M') 0 < nth i (wotsChecksum P M) 0).
+Proof. exact checksum_antichain. Qed.
+Print Assumptions C16_wots_digit_strings_are_an_antichain.
+
+(* why the event is LOCATED: without reference to the two given signatures,
+   "two WOTS+ signatures on values with different digits and the same WOTS+ public
+   key" exist for EVERY hash family and every two values (the holder of the chain
+   start values signs both) -- such a disjunct would be true for free *)
+Theorem C16_unlocated_switch_would_be_free :
+  forall P HS pk, hashes_ok P HS -> forall l t kp M M' sk,
+    wotsPkFromSigS P HS l t kp (wotsChecksum P M) (wotsSignS P HS l t kp (wotsChecksum P M) sk pk) pk
+    = wotsPkFromSigS P HS l t kp (wotsChecksum P M') (wotsSignS P HS l t kp (wotsChecksum P M') sk pk) pk.
+Proof. exact unlocated_switch_is_free. Qed.
+Print Assumptions C16_unlocated_switch_would_be_free.
+
+(* === modifications that change the FORS indices: the target-subset event === *)
+(* A changed message (or R) changes the digest.  When the new digest still selects
+   the same hypertree leaf (idx_tree, idx_leaf) but ARBITRARY other FORS indices
+   ind', two accepted pairs under one key have equal hypertree parts and, for EVERY
+   FORS tree i (tree_consistent):
+     ind_i = ind'_i and the same revealed secret value and authentication path, or
+     ind_i <> ind'_i and the two openings CROSS at some height kk < a: the node the
+     second signature computes from ITS revealed leaf and ITS lower authentication
+     nodes equals the first signature's authentication node at height kk, and vice
+     versa, and the authentication nodes above kk coincide;
+   or the located WOTS+ switch is true of the pair, or a same-tweak collision exists.
+   So every one of the k indices of the second digest lands on a leaf consistent
+   with the FORS trees the first signature commits to: with the first signature
+   genuine, the second one had to reveal values hashing to the true subtree nodes
+   (the PRF-derived secrets, or second preimages).  Not covered: digests that select
+   another (idx_tree, idx_leaf); that case stays checked by the correspondence only. *)
+Theorem C16_changed_fors_indices_target_subset_reduction :
+  forall P HS, hashes_ok P HS -> params_wf P -> hashes_wfb HS -> digits_wf P ->
+  forall pkSeed pkRoot msg sig msg' sig' md md' it il,
+    verifyInternal P HS pkSeed pkRoot msg sig = true ->
+    verifyInternal P HS pkSeed pkRoot msg' sig' = true ->
+    split_digest P (hHMsg HS (firstn (p_n P) sig) pkSeed pkRoot msg) = (md, it, il) ->
+    split_digest P (hHMsg HS (firstn (p_n P) sig') pkSeed pkRoot msg') = (md', it, il) ->
+    let ind := base2b md (p_a P) (p_k P) in
+    let ind' := base2b md' (p_a P) (p_k P) in
+    (sig_ht P sig = sig_ht P sig' /\
+     fors_consistent P HS pkSeed 0 it il ind ind' (sig_fors P sig) (sig_fors P sig'))
+    \/ ht_switch P HS pkSeed (sig_ht P sig) (sig_ht P sig') it il
+         (forsPkFromSigS P HS 0 it il ind (sig_fors P sig) pkSeed)
+         (forsPkFromSigS P HS 0 it il ind' (sig_fors P sig') pkSeed) = true
+    \/ th_collision HS pkSeed.
+Proof. exact two_accepted_same_leaf. Qed.
+Print Assumptions C16_changed_fors_indices_target_subset_reduction.
+
+(* the underlying fact: two openings of one Merkle tree at different leaves with the
+   same root cross (or collide) *)
+Theorem C16_two_merkle_openings_cross :
+  forall P HS, hashes_ok P HS -> forall pk mkad cnt tidx1 idx1 auth1 node1 tidx2 idx2 auth2 node2,
+    length node1 = p_n P -> length node2 = p_n P ->
+    (forall j, (j < cnt)%nat -> length (chunk P j auth1) = p_n P /\ length (chunk P j auth2) = p_n P) ->
+    (forall j, (j < cnt)%nat -> N.land (N.shiftr idx1 (N.of_nat j)) 1 = N.land (N.shiftr tidx1 (N.of_nat j)) 1) ->
+    (forall j, (j < cnt)%nat -> N.land (N.shiftr idx2 (N.of_nat j)) 1 = N.land (N.shiftr tidx2 (N.of_nat j)) 1) ->
+    N.shiftr tidx1 (N.of_nat cnt) = N.shiftr tidx2 (N.of_nat cnt) -> tidx1 <> tidx2 ->
+    climbS P HS mkad cnt 0 tidx1 idx1 auth1 pk node1 = climbS P HS mkad cnt 0 tidx2 idx2 auth2 pk node2 ->
+    th_collision HS pk \/ exists kk, (kk < cnt)%nat /\
+      N.land (N.shiftr tidx1 (N.of_nat kk)) 1 <> N.land (N.shiftr tidx2 (N.of_nat kk)) 1 /\
+      climbS P HS mkad kk 0 tidx1 idx1 auth1 pk node1 = chunk P kk auth2 /\
+      climbS P HS mkad kk 0 tidx2 idx2 auth2 pk node2 = chunk P kk auth1 /\
+      forall j, (kk < j < cnt)%nat -> chunk P j auth1 = chunk P j auth2.
+Proof. intros P HS OK pk mkad. exact (merge P HS OK pk mkad). Qed.
+Print Assumptions C16_two_merkle_openings_cross.
 
 (* a modified PK.root (same PK.seed): one signature cannot be accepted under two
    roots unless the two digests (PK.root is hashed into them) select differently *)
@@ -575,6 +681,20 @@ Definition toyHF : F.fips_hashes :=
          (fun p A x => toy_mix (p ++ A ++ x))
          (fun p A x => toy_mix (p ++ A ++ x)).
 
+Lemma toy_sum_lt l : toy_sum l < 65521.
+Proof.
+  unfold toy_sum. assert (G : forall l a, a < 65521 -> fold_left (fun acc b => (acc * 31 + b + 1) mod 65521) l a < 65521).
+  { clear l. induction l as [|x l IH]; intros a Ha; cbn [fold_left]; [exact Ha|]. apply IH. apply N.mod_lt. discriminate. }
+  apply G. reflexivity.
+Qed.
+
+Lemma toy_mix_wfb l : wfb (toy_mix l).
+Proof.
+  unfold toy_mix. pose proof (toy_sum_lt l) as Hs. cbv zeta.
+  repeat constructor; [apply N.mod_lt; discriminate|].
+  apply N.div_lt_upper_bound; [discriminate|]. eapply N.lt_trans; [exact Hs|reflexivity].
+Qed.
+
 (* premises of the FIPS equalities are inhabited; on the instance both sides
    compute to the same 66 bytes / the same verdicts (genuine, modified, short) *)
 Example C16_fips_nonvacuous :
@@ -597,11 +717,12 @@ Qed.
 (* premises of the modified-signature reduction are inhabited, and its
    conclusion is then a REAL collision: on the toy family (16-bit outputs) the
    genuine signature with its last two bytes 147,124 replaced by 148,93 is
-   accepted too (same key, same message, same R); the two verifications call H
-   at the top of the hypertree (layer 1, tree 0, height 2, index 0) on two
+   accepted too (same key, same message, same R); the located switch is FALSE
+   of this pair (the event is refutable, not free), and the two verifications
+   call H at the top of the hypertree (layer 1, tree 0, height 2, index 0) on two
    different 4-byte inputs with the same 2-byte output, the public root. *)
 Example C16_modified_signature_nonvacuous :
-  hashes_ok toyP toyHS /\ params_wf toyP /\
+  hashes_ok toyP toyHS /\ params_wf toyP /\ hashes_wfb toyHS /\ digits_wf toyP /\
   let sk := keygen toyP toyHS [1; 2] [3; 4] [5; 6] in
   let root := skipn 6 sk in
   let sig := signInternal toyP toyHS [1; 2] [3; 4] [5; 6] root [9; 9; 9] [8; 8] in
@@ -609,6 +730,7 @@ Example C16_modified_signature_nonvacuous :
   verifyInternal toyP toyHS [5; 6] root [9; 9; 9] sig = true /\
   verifyInternal toyP toyHS [5; 6] root [9; 9; 9] sig' = true /\
   firstn (p_n toyP) sig = firstn (p_n toyP) sig' /\ sig <> sig' /\
+  sig_switch toyP toyHS [5; 6] root [9; 9; 9] sig sig' = false /\
   let ad := mkA 1 0 T_TREE 0 2 0 in
   let x := [147; 124; 119; 44] in
   let y := [148; 93; 119; 44] in
@@ -616,5 +738,49 @@ Example C16_modified_signature_nonvacuous :
   /\ hH toyHS [5; 6] ad x = root.
 Proof.
   split; [constructor; intros; reflexivity|]. split; [split; [reflexivity|apply le_S, le_n]|].
+  split; [constructor; intros; apply toy_mix_wfb|].
+  split; [unfold digits_wf; vm_compute; repeat split; repeat constructor|].
   vm_compute. repeat split; try discriminate. apply le_S, le_S, le_S, le_n.
 Qed.
+
+(* ... and the located switch is TRUE of another accepted pair: the holder of the
+   secret seed replaces the FORS part by a FORS signature for other indices (which
+   verification maps to another FORS public key M0') and the layer-0 WOTS+ part by
+   its WOTS+ signature of M0'; the result is accepted for the same key, message and
+   R, differs from the genuine signature, and sig_switch finds the switch. *)
+Example C16_located_switch_nonvacuous :
+  let sk := keygen toyP toyHS [1; 2] [3; 4] [5; 6] in
+  let root := skipn 6 sk in
+  let sig := signInternal toyP toyHS [1; 2] [3; 4] [5; 6] root [9; 9; 9] [8; 8] in
+  let '(ind, it, il) := selectors toyP toyHS [5; 6] root [9; 9; 9] sig in
+  let ind' := [(nth 0 ind 0 + 1) mod 4; nth 1 ind 0] in
+  let sF' := forsSignS toyP toyHS 0 it il ind' [1; 2] [5; 6] in
+  let M0' := forsPkFromSigS toyP toyHS 0 it il ind sF' [5; 6] in
+  let X0 := gchunk (xmssSigSize toyP) 0 (sig_ht toyP sig) in
+  let X0' := wotsSignS toyP toyHS 0 it il (wotsChecksum toyP M0') [1; 2] [5; 6] ++ skipn (p_len toyP * 2) X0 in
+  let sig' := firstn 2 sig ++ sF' ++ X0' ++ skipn (xmssSigSize toyP) (sig_ht toyP sig) in
+  verifyInternal toyP toyHS [5; 6] root [9; 9; 9] sig = true /\
+  verifyInternal toyP toyHS [5; 6] root [9; 9; 9] sig' = true /\
+  firstn (p_n toyP) sig = firstn (p_n toyP) sig' /\ sig <> sig' /\
+  sig_switch toyP toyHS [5; 6] root [9; 9; 9] sig sig' = true.
+Proof. vm_compute. repeat split; discriminate. Qed.
+
+(* premises of the target-subset reduction are inhabited by a non-trivial instance:
+   the genuine toy signatures of [9;9;9] and [9;9;7] are both accepted, their digests
+   select the same hypertree leaf (3, 0) but the FORS indices [1;1] and [0;2]; the
+   hypertree parts coincide, the FORS parts differ, and there is no located switch
+   (so the first disjunct -- crossing openings in both FORS trees -- is what holds) *)
+Example C16_target_subset_nonvacuous :
+  let sk := keygen toyP toyHS [1; 2] [3; 4] [5; 6] in
+  let root := skipn 6 sk in
+  let sig := signInternal toyP toyHS [1; 2] [3; 4] [5; 6] root [9; 9; 9] [8; 8] in
+  let sig' := signInternal toyP toyHS [1; 2] [3; 4] [5; 6] root [9; 9; 7] [8; 8] in
+  verifyInternal toyP toyHS [5; 6] root [9; 9; 9] sig = true /\
+  verifyInternal toyP toyHS [5; 6] root [9; 9; 7] sig' = true /\
+  selectors toyP toyHS [5; 6] root [9; 9; 9] sig = ([1; 1], 3, 0) /\
+  selectors toyP toyHS [5; 6] root [9; 9; 7] sig' = ([0; 2], 3, 0) /\
+  sig_ht toyP sig = sig_ht toyP sig' /\ sig_fors toyP sig <> sig_fors toyP sig' /\
+  ht_switch toyP toyHS [5; 6] (sig_ht toyP sig) (sig_ht toyP sig') 3 0
+    (forsPkFromSigS toyP toyHS 0 3 0 [1; 1] (sig_fors toyP sig) [5; 6])
+    (forsPkFromSigS toyP toyHS 0 3 0 [0; 2] (sig_fors toyP sig') [5; 6]) = false.
+Proof. vm_compute. repeat split; discriminate. Qed.
